@@ -131,7 +131,23 @@ GEN_TYPES = [
                    "#[derive(TS)] #[ts(export)] pub struct Aliased { items: Items, lookup: Lookup, b: Option<Boxed> }"),
     ("AliasedEnum", 0, "pub type Pairs = (Leaf, Far);\n#[derive(TS)] #[ts(export)] pub enum AliasedEnum { A(Pairs), B { p: Items } }"),
     ("NewtypeDefault", 1, '#[derive(TS)] #[ts(export)] pub struct NewtypeDefault<T = Far>(#[ts(type = "number")] std::marker::PhantomData<T>);'),
+    # file forms of export_to that do not end in `.ts`: the path is used verbatim (leaves: nothing imports them)
+    ("OddExt", 0, '#[derive(TS)] #[ts(export, export_to = "odd/file.mts")] pub struct OddExt { a: i32 }'),
+    ("NoExt", 0, '#[derive(TS)] #[ts(export, export_to = "noext/index")] pub struct NoExt { a: i32 }'),
+    ("Dotted", 0, '#[derive(TS)] #[ts(export, export_to = "a.b/types.d.mts", rename = "Dot")] pub struct Dotted { a: i32 }'),
+    ("DirDots", 0, '#[derive(TS)] #[ts(export, export_to = "v1.2/")] pub struct DirDots { a: i32 }'),
 ]
+
+
+def documented_path(ident, item):
+    """the documented output location: `<dir>/<TsName>.ts` for a directory, the given path verbatim for a file, `<TsName>.ts` by default"""
+    import re as _re
+    m = _re.search(r'export_to = "([^"]*)"', item)
+    r = _re.search(r'rename = "([^"]*)"', item)
+    name = r.group(1) if r else ident
+    if not m:
+        return name + ".ts"
+    return m.group(1) + name + ".ts" if m.group(1).endswith("/") else m.group(1)
 
 
 def generated_tests(ctx):
@@ -192,6 +208,9 @@ fn oracle() {
         for rel, text in sorted(ta.items()):
             fp = os.path.join(a, rel)
             probs += ["%s: %s" % (rel, q) for q in tsmini.closed_module(fp, text, names, lambda q: open(q, encoding="utf-8").read() if os.path.exists(q) else None)]
+        want = os.path.normpath(documented_path(ident, item))
+        if want not in tb:
+            viol.append(dict(kind="property-violated", what="the file of %s is not at its documented location %s" % (ident, want), item=item, written=sorted(tb)))
         if ta != tb or probs:
             viol.append(dict(kind="property-violated", what="the generated test export_bindings_%s does not write the root's and its dependencies' files" % ident.lower(),
                              item=item, written_by_generated_test=sorted(ta), written_by_export_all_to=sorted(tb),
